@@ -41,18 +41,35 @@ def generic_entry(it, label='cfg'):
     return d
 
 
-def generic_bit_config(it, name='iso_config'):
-    """A caller supplied configuration: any key may be present (well-formed entry) or absent."""
+def generic_bit_config(it, name='iso_config', strict_may_miss=False):
+    """A caller supplied configuration: any key may be present (well-formed entry) or absent.
+    strict_may_miss: `cfg[key]` on an element that has no entry raises KeyError (instead of assuming, with A1, that every
+    element that is used is configured); look-ups of one key agree with each other."""
     cfg = DictV(desc=name, open_=True)
+    memo = {}
 
     def default(it2, key, node, strict):
         present = True
-        if not strict:
+        kr = it2.resolve(key)
+        from_own_keys = isinstance(kr, SymV) and kr.kind == 'key' and getattr(kr, 'origin', None) is cfg
+        mk = repr(kr) if strict_may_miss and not from_own_keys else None
+        if mk is not None and mk in memo:
+            present = memo[mk] is not None
+            if present:
+                return memo[mk]
+        elif not strict or (strict_may_miss and not from_own_keys):
             c = it2.choose(2, f'{name}[{key!r}] present')
             present = c in (0, None)
         if not present:
+            if mk is not None:
+                memo[mk] = None
+            if strict:
+                raise Raised(ExcV(KeyError, [key], node=node, stack=it2.stack, op=f'{name}[{key!r}]: element not configured', definite=True))
             return ConstV(None)
-        return generic_entry(it2)
+        e = generic_entry(it2)
+        if mk is not None:
+            memo[mk] = e
+        return e
     cfg.default = default
     return cfg
 
